@@ -1,6 +1,7 @@
 //! C15 (B): the same actor bodies on real spawned threads under shuttle's exhaustive DFS
 //! scheduler. `yield_now()` before every operation hands every call boundary to the scheduler.
 //! Prints one JSON line: {"groups":[{name, rule, schedules, exhaustive, failure}]}
+//! The body lives in body.rs so that the instrumented ("shadow") build can include it too.
 
 use serde_json::{json, Value};
 use shuttle::scheduler::DfsScheduler;
@@ -9,166 +10,4 @@ use shuttle::{thread, Config, Runner};
 use std::sync::atomic::{AtomicUsize, Ordering};
 use vlib::actors::*;
 
-fn run_actor_checked(spec: &Spec, expect: &[String], from: usize, to: usize, mut a: Actor) -> Actor {
-    let _ = spec;
-    for k in from..to {
-        thread::yield_now();
-        let o = a.step();
-        assert_eq!(o, expect[k], "thread observation differs from the solo sequence at operation {}", k);
-    }
-    a
-}
-
-fn solo_safe(spec: &Spec) -> Vec<String> {
-    let s = spec.clone();
-    std::panic::catch_unwind(move || solo(&s)).unwrap_or_else(|_| vec!["PANIC alone".to_string()])
-}
-
-fn explore<F: Fn() + Send + Sync + 'static>(name: &str, rule: &str, cap: Option<usize>, f: F) -> std::thread::JoinHandle<Value> {
-    let (name, rule) = (name.to_string(), rule.to_string());
-    std::thread::spawn(move || explore_inner(&name, &rule, cap, f))
-}
-
-fn explore_inner<F: Fn() + Send + Sync + 'static>(name: &str, rule: &str, cap: Option<usize>, f: F) -> Value {
-    let mut cfg = Config::default();
-    cfg.failure_persistence = shuttle::FailurePersistence::None;
-    let sched = DfsScheduler::new(cap, false);
-    let runner = Runner::new(sched, cfg);
-    let r = std::panic::catch_unwind(std::panic::AssertUnwindSafe(|| runner.run(f)));
-    match r {
-        Ok(n) => json!({"name": name, "rule": rule, "schedules": n, "exhaustive": cap.map(|c| n < c).unwrap_or(true), "cap": cap, "failure": Value::Null}),
-        Err(e) => {
-            let msg = if let Some(s) = e.downcast_ref::<String>() { s.clone() } else if let Some(s) = e.downcast_ref::<&str>() { s.to_string() } else { "panic".into() };
-            json!({"name": name, "rule": rule, "schedules": 0, "exhaustive": false, "cap": cap, "failure": msg})
-        }
-    }
-}
-
-static EXECUTIONS: AtomicUsize = AtomicUsize::new(0);
-
-fn main() {
-    let tier = std::env::args().nth(1).unwrap_or_else(|| "quick".into());
-    let thorough = tier == "thorough";
-    let cap = Some(if thorough { 2_000_000 } else { 40_000 });
-    let gs = groups();
-    let find = |n: &str| gs.iter().find(|g| g.0 == n).unwrap().1.clone();
-    let mut out = vec![];
-    // quiet: assertion failures inside shuttle tasks are reported through the returned value
-    std::panic::set_hook(Box::new(|_| {}));
-
-    // G1: two threads, one evaluator each (identical / other flop), every call boundary a scheduling point
-    for gname in ["identical", "other-flop-same-ranges", "overlapping-scopes", "near-flops"] {
-        let specs = find(gname);
-        // shorter programs in quick: the DFS scheduler has no partial-order reduction
-        let specs: Vec<Spec> = specs.into_iter().map(|s| match s { Spec::Eval { cfg, scope, .. } => Spec::Eval { cfg, scope: (scope.0, scope.1, scope.2, if thorough { scope.3 } else { scope.3.min(scope.1 + 3) }), extra: 1 }, o => o }).collect();
-        let solos: Vec<Vec<String>> = specs.iter().map(solo_safe).collect();
-        let lens: Vec<usize> = solos.iter().map(|s| s.len()).collect();
-        let (sp, so) = (specs.clone(), solos.clone());
-        out.push(explore(&format!("two-threads/{}", gname), &format!("two shuttle threads, each building and draining its own evaluator ({:?} operations), yield_now() before every operation; each observation compared with the solo sequence; DFS over all schedules", lens), cap, move || {
-            EXECUTIONS.fetch_add(1, Ordering::Relaxed);
-            let hs: Vec<_> = (0..sp.len())
-                .map(|i| {
-                    let (s, e) = (sp[i].clone(), so[i].clone());
-                    thread::spawn(move || {
-                        let a = Actor::new(&s);
-                        run_actor_checked(&s, &e, 0, e.len(), a);
-                    })
-                })
-                .collect();
-            for h in hs {
-                h.join().unwrap();
-            }
-        }));
-    }
-
-    // G2: three threads (two evaluators and the parser/formatter)
-    {
-        let specs = vec![find("four-evaluators")[0].clone(), find("four-evaluators")[2].clone(), Spec::Parser { text: "AKs:0.5".into() }];
-        let solos: Vec<Vec<String>> = specs.iter().map(solo_safe).collect();
-        // the DFS scheduler has no partial-order reduction: keep three-thread programs short
-        let keep = if thorough { 3 } else { 2 };
-        let solos: Vec<Vec<String>> = solos.into_iter().map(|s| s.into_iter().take(keep).collect()).collect();
-        let lens: Vec<usize> = solos.iter().map(|s| s.len()).collect();
-        let (sp, so) = (specs.clone(), solos.clone());
-        out.push(explore("three-threads", &format!("three shuttle threads: two evaluators on different flops and the parser/formatter ({:?} operations), yield_now() before every operation", lens), cap, move || {
-            let hs: Vec<_> = (0..sp.len())
-                .map(|i| {
-                    let (s, e) = (sp[i].clone(), so[i].clone());
-                    thread::spawn(move || {
-                        let a = Actor::new(&s);
-                        run_actor_checked(&s, &e, 0, e.len(), a);
-                    })
-                })
-                .collect();
-            for h in hs {
-                h.join().unwrap();
-            }
-        }));
-    }
-
-    // G3: values moved between threads: built on the parent, iterated on a child, handed to a second child mid-way
-    {
-        let spec = find("identical")[0].clone();
-        let spec = match spec { Spec::Eval { cfg, scope, .. } => Spec::Eval { cfg, scope: (scope.0, scope.1, scope.2, scope.1 + 3), extra: 1 }, o => o };
-        let e = solo_safe(&spec);
-        let n = e.len();
-        out.push(explore("moved-between-threads", &format!("an evaluator built on the parent thread, iterated for 2 operations on a first child, handed back and finished on a second child, while a third thread drains an identical evaluator ({} operations each)", n), cap, move || {
-            let (s1, e1) = (spec.clone(), e.clone());
-            let other = thread::spawn(move || {
-                let a = Actor::new(&s1);
-                run_actor_checked(&s1, &e1, 0, e1.len(), a);
-            });
-            let mut a = Actor::new(&spec);
-            let o = a.step(); // built on the parent
-            assert_eq!(o, e[0]);
-            let (s2, e2) = (spec.clone(), e.clone());
-            let h = thread::spawn(move || run_actor_checked(&s2, &e2, 1, 3, a));
-            let a = h.join().unwrap();
-            let (s3, e3) = (spec.clone(), e.clone());
-            let h = thread::spawn(move || {
-                let n = e3.len();
-                run_actor_checked(&s3, &e3, 3, n, a);
-            });
-            h.join().unwrap();
-            other.join().unwrap();
-        }));
-    }
-
-    // G4: a HandRange and a Showdown shared through Arc and read concurrently
-    {
-        let text = "QQ+,AKs:0.5,AsKd";
-        let range: espada::hand_range::HandRange = text.parse().unwrap();
-        let want_text = range.to_string();
-        let spec = find("identical")[0].clone();
-        let first_sd = solo_safe(&spec).get(1).cloned().unwrap_or_default();
-        out.push(explore("shared-through-arc", "one HandRange and one Showdown behind an Arc, read by two threads at once (to_string / rank_pairs / players / board), yield_now() between reads", cap, move || {
-            let r = Arc::new(text.parse::<espada::hand_range::HandRange>().unwrap());
-            let mut a = Actor::new(&spec);
-            a.step();
-            let sd = match &mut a.state {
-                State::EvalRunning(it) => Arc::new(it.next().unwrap()),
-                _ => unreachable!(),
-            };
-            let hs: Vec<_> = (0..2)
-                .map(|_| {
-                    let (r, sd, wt, fs) = (r.clone(), sd.clone(), want_text.clone(), first_sd.clone());
-                    thread::spawn(move || {
-                        thread::yield_now();
-                        assert_eq!(r.to_string(), wt);
-                        thread::yield_now();
-                        assert_eq!(showdown_sig(&sd), fs);
-                        thread::yield_now();
-                        assert_eq!(r.rank_pairs().len(), 4);
-                        thread::yield_now();
-                        assert_eq!(sd.players().len(), 2);
-                    })
-                })
-                .collect();
-            for h in hs {
-                h.join().unwrap();
-            }
-        }));
-    }
-    let out: Vec<Value> = out.into_iter().map(|h| h.join().expect("explorer thread")).collect();
-    println!("{}", json!({"groups": out, "executions_counted_in_g1": EXECUTIONS.load(Ordering::Relaxed)}));
-}
+include!("body.rs");
